@@ -16,6 +16,7 @@ import Gv.Proofs.ClustalPos
 import Gv.Proofs.PartitionOutcome
 import Gv.Proofs.PhylipHeader
 import Gv.Proofs.NexusHeader
+import Gv.Proofs.PhylipMulti
 /-!
 C03 — parsers terminate on every input with an error or a well-formed result.
 
@@ -734,6 +735,53 @@ example : Spec.Fmt.declaredPhylip [32, 50, 32, 51, 10, 97, 32, 65, 67, 71, 10, 9
 /-- blanks, then NUL, then anything: the end-of-stream marker; ` \n x`: an error, not the marker -/
 example : Phylip.parse false {} [32, 10, 0, 65] = .ok none ∧ Spec.Fmt.blankToNul [32, 10, 0, 65] = true := by decide
 example : Phylip.parse false {} [32, 10, 32, 120] = .error := by decide
+
+/-- **`ParseMultiple` on a whole input terminates** (with the repairs of commit 74f5867; every option, ALL byte
+strings): the stream loop — fuel `|input| + 2`, as the oracle runs it — ends with the list of alignments handed on
+(each well formed, `ok` = no error met) or with the exit of a lone `\r`; it never runs out of fuel (every `Parse`
+that returns an alignment consumes at least two bytes: measure = remaining bytes + 1 for a pushed-back token), never
+panics, never enters the machine-dependent allocation band. -/
+theorem phylip_multi_outcome (o : POpts) (bs : List Byte) :
+    match Phylip.parseMulti false o (bs.length + 2) { inp := bs } [] with
+    | .done als _ => ∀ a ∈ als, Spec.Fmt.wellFormed a.length a.rows = true
+    | .slow => False
+    | .stop st => st = .exit := by
+  have h1 := phylip_multi_wellformed false o (bs.length + 2) { inp := bs } [] (by simp)
+  have h2 := Gv.Proofs.PhylipMulti.parseMulti_nh false o (bs.length + 2) { inp := bs } []
+    (by have := Gv.Proofs.PhylipNoHang.ν_le ({ inp := bs } : Phylip.St); simp [Gv.Proofs.PhylipNoHang.ν])
+  have h3 := Gv.Proofs.PhylipMulti.parseMulti_np o (bs.length + 2) { inp := bs } []
+  cases hp : Phylip.parseMulti false o (bs.length + 2) { inp := bs } [] with
+  | done als ok => rw [hp] at h1; exact h1
+  | slow => exact absurd hp h3.2
+  | stop st =>
+    cases st with
+    | exit => rfl
+    | hang => exact absurd hp h2
+    | panic => exact absurd hp h3.1
+    | error =>
+      -- an explicit error ends the loop with `done … false`, never with `stop error`
+      exfalso
+      have : ∀ (fuel : Nat) (s : Phylip.St) (acc : List Aln), Phylip.parseMulti false o fuel s acc ≠ .stop .error := by
+        intro fuel
+        induction fuel with
+        | zero => intro s acc; simp [Phylip.parseMulti]
+        | succ k ih =>
+          intro s acc
+          unfold Phylip.parseMulti
+          cases h : Phylip.parseOne false o s with
+          | error e => cases e <;> simp
+          | ok v =>
+            obtain ⟨r, s'⟩ := v
+            cases r with
+            | aln a => simp only; exact ih s' _
+            | eos => simp
+            | slow => simp
+      exact this _ _ _ hp
+
+/-- non-vacuity: two alignments in one stream -/
+example : (match Phylip.parseMulti false {} 21 { inp := [32, 49, 32, 50, 10, 97, 32, 65, 67, 10, 32, 49, 32, 49, 10, 98, 32, 71, 10] } [] with
+    | .done als ok => (als.map (·.rows), ok)
+    | _ => ([], false)) = ([[([97], [65, 67])], [([98], [71])]], true) := by decide
 
 /-! ## Nexus: a success agrees with the counts of the DIMENSIONS commands and with the TAXA block -/
 
